@@ -1,0 +1,112 @@
+//go:build verif
+
+// Contracts for gzv (contract-based deductive verification, /verif). Comment-only file.
+package hash
+
+// ---------------------------------------------------------------------------------------------
+// C15 consistent hash (claimed in part). hashFunc, repr and innerRepr are opaque deterministic functions.
+// Lock invariant: keys is sorted, every key has a non-empty ring bucket.
+// ---------------------------------------------------------------------------------------------
+//@ spec hInv(h *ConsistentHash) bool = h.ring != nil && h.nodes != nil && h.hashFunc != nil && h.replicas >= 100 &&
+//@      forall(i.(int), j.(int), implies(0 <= i && i <= j && j < len(h.keys), h.keys[i] <= h.keys[j])) &&
+//@      forall(i.(int), implies(0 <= i && i < len(h.keys), inDom(h.ring, h.keys[i]) && len(h.ring[h.keys[i]]) > 0)) &&
+//@      implies(card(h.ring) > 0, len(h.keys) > 0)
+
+//@ func repr
+//@   trusted
+//@   pure
+//@   modifies nothing
+//@ func innerRepr
+//@   trusted
+//@   pure
+//@   modifies nothing
+
+// Get: none for an empty ring; otherwise a member of the bucket of the first key >= hash(v) (wrapping to the first key)
+//@ func (h *ConsistentHash) Get
+//@   property C15
+//@   flag nolock purefn:hashFunc callbacks_noheap nopanic:hashFunc
+//@   results node, ok
+//@   requires hInv(h)
+//@   ghost at entry: si = 0
+//@   ghost at entry: hv = 0
+//@   ghost at after Search#0: si = ret
+//@   ghost at after hashFunc#0: hv = ret
+//@   ensures  implies(card(h.ring) == 0, !ok && node == nil)
+//@   ensures  implies(card(h.ring) > 0, ok)
+//@   ensures  implies(ok, 0 <= si && si <= len(h.keys) && has(h.ring[h.keys[si%len(h.keys)]], node))
+//@   ensures  implies(ok && si < len(h.keys), h.keys[si] >= hv && forall(j.(int), implies(0 <= j && j < si, h.keys[j] < hv)))
+//@   ensures  implies(ok && si == len(h.keys), forall(j.(int), implies(0 <= j && j < len(h.keys), h.keys[j] < hv)))
+//@   modifies calls(h.hashFunc)
+
+// weights: replicas = h.replicas * weight / 100 (clamped to h.replicas by AddWithReplicas)
+//@ func (h *ConsistentHash) AddWithWeight
+//@   property C15
+//@   requires h.ring != nil && h.nodes != nil && h.replicas >= 100
+//@   requires forall(i.(int), j.(int), implies(0 <= i && i <= j && j < len(h.keys), h.keys[i] <= h.keys[j]))
+//@   call AddWithReplicas#0: assert arg_node == node && arg_replicas == h.replicas * weight / 100
+
+// removeRingNode: afterwards the bucket holds no member with that repr; it is dropped iff it became empty
+//@ func (h *ConsistentHash) removeRingNode
+//@   property C15
+//@   requires h.ring != nil
+//@   ensures  forall(x.(any), implies(inDom(h.ring, hash) && has(h.ring[hash], x), repr(x) != nodeRepr && old(inDom(h.ring, hash)) && old(has(h.ring[hash], x))))
+//@   ensures  forall(x.(any), implies(old(inDom(h.ring, hash)) && old(has(h.ring[hash], x)) && repr(x) != nodeRepr, inDom(h.ring, hash) && has(h.ring[hash], x)))
+//@   ensures  implies(inDom(h.ring, hash), len(h.ring[hash]) > 0)
+//@   ensures  forall(k.(uint64), implies(k != hash, inDom(h.ring, k) == old(inDom(h.ring, k))))
+//@   modifies mapof(h.ring)
+//@   allocates
+//@   loop 0: modifies nothing
+//@   loop 0: invariant forall(x.(any), has(newNodes, x) == (visited[x] && repr(x) != nodeRepr))
+//@   loop 0: invariant implies(len(newNodes) == 0, forall(x.(any), !has(newNodes, x)))
+
+// Remove: only virtual nodes with index below h.replicas exist (AddWithReplicas clamps), so visiting i in [0, h.replicas)
+// reaches all of them; every exact match found by the binary search is taken out of keys; the bucket is purged of the node.
+//@ func (h *ConsistentHash) Remove
+//@   property C15
+//@   flag nolock purefn:hashFunc callbacks_noheap nopanic:hashFunc
+//@   requires h.ring != nil && h.nodes != nil && h.replicas >= 100
+//@   requires forall(i.(int), j.(int), implies(0 <= i && i <= j && j < len(h.keys), h.keys[i] <= h.keys[j]))
+//@   ghost at entry: idx0 = 0
+//@   ghost at entry: l0 = 0
+//@   ghost at entry: k0 = 0
+//@   ghost at after Search#0: idx0 = ret
+//@   ghost at after Search#0: l0 = len(h.keys)
+//@   ghost at after Search#0: k0 = h.keys[ret]
+//@   call removeRingNode#0: assert arg_nodeRepr == nodeRepr && arg_hash == hash
+//@   call removeRingNode#0: assert implies(idx0 < l0 && k0 == hash, len(h.keys) == l0 - 1)
+//@   call removeRingNode#0: assert implies(!(idx0 < l0 && k0 == hash), len(h.keys) == l0)
+//@   ensures  !inDom(h.nodes, repr(node)) && h.ring != nil && h.nodes != nil && h.replicas == old(h.replicas)
+//@   ensures  forall(a.(int), b.(int), implies(0 <= a && a <= b && b < len(h.keys), h.keys[a] <= h.keys[b]))
+//@   modifies h.keys, mapof(h.ring), mapof(h.nodes), calls(h.hashFunc)
+//@   allocates
+//@   loop 0: modifies h.keys, mapof(h.ring), calls(h.hashFunc)
+//@   loop 0: invariant 0 <= i && i <= h.replicas && h.ring != nil && h.nodes != nil
+//@   loop 0: invariant forall(a.(int), b.(int), implies(0 <= a && a <= b && b < len(h.keys), h.keys[a] <= h.keys[b]))
+
+// AddWithReplicas: removes the node first, clamps the replica count to the ring's own, inserts exactly `replicas` virtual nodes
+//@ func (h *ConsistentHash) AddWithReplicas
+//@   property C15
+//@   flag nolock purefn:hashFunc callbacks_noheap nopanic:hashFunc
+//@   requires h.ring != nil && h.nodes != nil && h.replicas >= 100
+//@   requires forall(i.(int), j.(int), implies(0 <= i && i <= j && j < len(h.keys), h.keys[i] <= h.keys[j]))
+//@   call Remove#0: assert arg_node == node
+//@   call append#1: assert arg1 == node
+//@   loop 0: modifies h.keys, mapof(h.ring), calls(h.hashFunc)
+//@   loop 0: invariant 0 <= i && replicas <= h.replicas && h.ring != nil && h.nodes != nil && inDom(h.nodes, repr(node))
+//@   ensures inDom(h.nodes, repr(node))
+
+//@ func (h *ConsistentHash) addNode
+//@   property C15
+//@   requires h.nodes != nil
+//@   ensures inDom(h.nodes, nodeRepr) && forall(k.(string), implies(k != nodeRepr, inDom(h.nodes, k) == old(inDom(h.nodes, k))))
+//@   modifies mapof(h.nodes)
+//@ func (h *ConsistentHash) containsNode
+//@   property C15
+//@   requires h.nodes != nil
+//@   ensures result == inDom(h.nodes, nodeRepr)
+//@   modifies nothing
+//@ func (h *ConsistentHash) removeNode
+//@   property C15
+//@   requires h.nodes != nil
+//@   ensures !inDom(h.nodes, nodeRepr) && forall(k.(string), implies(k != nodeRepr, inDom(h.nodes, k) == old(inDom(h.nodes, k))))
+//@   modifies mapof(h.nodes)
